@@ -1,6 +1,6 @@
 SPECIFICATION Spec
 CONSTANTS
-  ExactFitOK = TRUE
-  MaxBits = 13
+  ExactFitOK = FALSE
+  MaxBits = 2
 INVARIANTS StuffOK SelOK
 CHECK_DEADLOCK FALSE
